@@ -2,32 +2,43 @@ import PsyVerif.Lemmas.Copy
 /-! # C15 — Copies of PSyIR subtrees are independent and equal
 
 Model: `PsyVerif/Model/Copy.lean` — `Node.copy/_refine_copy`, `ScopingNode._refine_copy`,
-`SymbolTable.deep_copy` and the symbol `copy` methods.  `copy fixed W r` copies the subtree with
-root identity `r` of the world `W`; `fixed = true` is the code **with
-fixes/C15-deepcopy-datatype-refs.patch applied** (`C15.deployed`, the mode the harness compares
-the real code with), `fixed = false` is the pinned code, which leaves the symbols reached
-through datatypes (kind parameters, array bounds, initial values, kinds of literals) pointing at
-the original's symbols.
+`SymbolTable.deep_copy` and the symbol `copy` methods.  `copy m W r` copies the subtree with root
+identity `r` of the world `W`.  The mode `m` says which repairs the modelled code contains:
+`m.dt` = the committed `fix:` from fixes/C15-deepcopy-datatype-refs.patch (symbols reached through
+datatypes are re-pointed and the copy owns the expression nodes of its declarations), `m.ifc` =
+fixes/C15-deepcopy-interfaces.patch (`deep_copy` copies the interface objects).
+`C15.deployed = ⟨true, true⟩` is the mode the harness compares the real code with; `⟨false, _⟩` is
+the pinned code, `⟨true, false⟩` the code with the first repair only.
 
 Quantification: every world satisfying `WF` (any number of detached trees of any shape, any
-symbol tables at any nodes, any references and datatype dependencies), every node identity `r`,
+symbol tables at any nodes, any references, any declarations: direct symbol links and expression
+forests for array bounds / component initialisers / initial values), every node identity `r`,
 every list of edits.  Written code is any function of `view W t` (classes, shape, names of the
-symbols used by nodes, declarations = names of table symbols and of the symbols their datatypes
-use).
+symbols used by nodes; per declared symbol its name, the names of the linked symbols, the
+expressions of its datatype and initial value with the names they use, the access of its interface).
 
 Statements:
 * `C15_copy_equal`        the copy is structurally equal to the original (same `view`);
-* `C15_copy_disjoint`     no node identity and no copied-scope symbol identity is shared;
+* `C15_copy_disjoint`     no node identity and no copied-scope symbol identity is shared, and
+                           (`C15_copy_decl_disjoint`) the expression nodes inside the declarations
+                           of the copy are new as well;
 * `C15_copy_refs_internal` every symbol the copy's written code reads is either declared by the
                            copy itself or is an outer-scope symbol (not declared in a copied scope);
-* `C15_edit_independent`  after the copy, edits addressing only one of the two trees leave the
-                           written code of the other unchanged (both directions) — for all edit
-                           lists that do not change an attribute of an interface object shared by
-                           a symbol and its copy (`Edit.noSharedIface`);
-* `C15_shared_interface_counterexample` without that restriction the statement (`C15_statement`)
-                           is false of the deployed code: `TypedSymbol.copy` and its overrides pass
-                           the interface object on (known finding C15-shared-interface);
-* `C15_datatype_ref_counterexample` the pinned code violates even the restricted statement;
+* `C15_edit_independent`  `C15_statement deployed`: after the copy, edits addressing only one of the
+                           two trees leave the written code of the other unchanged (both directions),
+                           for all edit lists (renames, new declarations, new/removed symbols,
+                           re-pointed references also inside declarations, interface attributes and
+                           interface replacement, class changes, detach/attach) that do not change a
+                           helper object held by a node of the copied subtree;
+                           `C15_edit_independent_generic`: for subtrees whose nodes hold no such
+                           object (generic PSyIR) that is ALL edit lists;
+* `C15_shared_attr_counterexample` `copy.copy` hands the helper objects of nodes on (PSyKAl kernels:
+                           `KernelArguments`, OpenCL option dict): `C15_statement_full deployed` is false
+                           (known findings C15-psykal-shared-*);
+* `C15_shared_interface_counterexample` with the first repair only the statement is false
+                           (`TypedSymbol.copy` and its overrides pass the interface object on), and
+                           `C15_edit_independent_partial` is what holds then;
+* `C15_datatype_ref_counterexample`, `C15_pinned_shares_datatype_nodes` the pinned code violates it;
 * `C15_pinned_partial`    the pinned code satisfies it under `NoSymbolInDatatype`. -/
 namespace C15
 
@@ -43,17 +54,17 @@ theorem sub_syms_lt {W : World} (wf : WF W) (r : Nat) :
     ∀ s ∈ (sub W r).syms ++ (sub W r).tsyms ++ (sub W r).owned, s < W.nsym :=
   findIn_syms_lt r W.trees W.nsym wf.syms_lt
 
-theorem copyTree_mem (fx : Bool) (W : World) (r : Nat) : copyTree fx W r ∈ (copy fx W r).trees := by
+theorem copyTree_mem (fx : Mode) (W : World) (r : Nat) : copyTree fx W r ∈ (copy fx W r).trees := by
   simp [copy]
 
-theorem old_tree_mem (fx : Bool) (W : World) (r : Nat) {t : Forest} (h : t ∈ W.trees) :
+theorem old_tree_mem (fx : Mode) (W : World) (r : Nat) {t : Forest} (h : t ∈ W.trees) :
     t ∈ (copy fx W r).trees := by
   simp [copy, h]
 
-theorem copyTree_ids (fx : Bool) (W : World) (r : Nat) :
+theorem copyTree_ids (fx : Mode) (W : World) (r : Nat) :
     (copyTree fx W r).ids = (sub W r).ids.map (· + W.nnode) := ids_map_copy ..
 
-theorem copyTree_owned (fx : Bool) (W : World) (r : Nat) :
+theorem copyTree_owned (fx : Mode) (W : World) (r : Nat) :
     (copyTree fx W r).owned = (sub W r).owned.map (· + W.nsym) := by
   unfold copyTree
   simp only [owned_map_copy]
@@ -62,7 +73,7 @@ theorem copyTree_owned (fx : Bool) (W : World) (r : Nat) :
   exact rho_mem hs
 
 /-- where the symbols used by the copy point: `rho` of where the original's pointed -/
-theorem rho_target {W : World} (r : Nat) {s : Nat} (hs : s < W.nsym) (fx : Bool) :
+theorem rho_target {W : World} (r : Nat) {s : Nat} (hs : s < W.nsym) (fx : Mode) :
     rho (sub W r).owned W.nsym s ∈ (copyTree fx W r).owned ∨
     (rho (sub W r).owned W.nsym s < W.nsym ∧ rho (sub W r).owned W.nsym s ∉ (sub W r).owned) := by
   by_cases hm : s ∈ (sub W r).owned
@@ -75,11 +86,11 @@ theorem rho_target {W : World} (r : Nat) {s : Nat} (hs : s < W.nsym) (fx : Bool)
 
 /-- symbols the written code of the copy reads, general form: each is the image of a symbol
 read by the original under `rho` (through nodes, tables) or `rhoT` (through datatypes) -/
-theorem reads_copy {fx : Bool} {W : World} (wf : WF W) (r : Nat) :
+theorem reads_copy {fx : Mode} {W : World} (wf : WF W) (r : Nat) :
     ∀ s ∈ reads (copy fx W r) (copyTree fx W r),
       (∃ o, o < W.nsym ∧ s = rho (sub W r).owned W.nsym o) ∨
       (∃ o, o < W.nsym ∧ (o ∈ (sub W r).tsyms ∨ ∃ q ∈ (sub W r).owned, o ∈ W.deps q) ∧
-            s = rhoT fx (sub W r).owned W.nsym o) := by
+            s = rhoT fx.dt (sub W r).owned W.nsym o) := by
   intro s hs
   have hlt := sub_syms_lt wf r
   simp only [List.mem_append] at hlt
@@ -107,110 +118,175 @@ theorem reads_copy {fx : Bool} {W : World} (wf : WF W) (r : Nat) :
 
 /-! ## helper lemmas: the frame -/
 
-/-- an edit is foreign to a tree with node identities `N` whose written code reads the symbols
-`R` if it addresses none of them -/
-def Edit.foreign (N : List Nat) (R : List Nat) (I : List Nat) (e : Edit) : Prop :=
-  (∀ p ∈ e.nodes, p ∉ N) ∧ (∀ s ∈ e.symbols, s ∉ R) ∧ (∀ i ∈ e.ifaces, i ∉ I)
+/-- an edit is foreign to a tree with node identities `N` (its own nodes and the expression nodes
+of its declarations) whose written code reads the symbols `R` and the interface objects `I` if it
+addresses none of them -/
+def Edit.foreign (N : List Nat) (R : List Nat) (I : List Nat) (A : List Nat) (e : Edit) : Prop :=
+  (∀ p ∈ e.nodes, p ∉ N) ∧ (∀ s ∈ e.symbols, s ∉ R) ∧ (∀ i ∈ e.ifaces, i ∉ I) ∧ (∀ a ∈ e.attrs, a ∉ A)
+
+/-- the node identities that belong to a tree: its nodes and the expression nodes inside the
+declarations of its symbols -/
+def footN (W : World) (Y : Forest) : List Nat := Y.ids ++ W.declIds Y.owned
+
+theorem mem_declIds {W : World} {l : List Nat} {s i : Nat} (hs : s ∈ l)
+    (hi : i ∈ (W.bounds s).ids ++ (W.init s).ids) : i ∈ W.declIds l :=
+  List.mem_flatMap.mpr ⟨s, hs, hi⟩
 
 /-- what a foreign edit preserves of a tree `Y` that reads `R` -/
-structure Kept (W₀ : World) (Y : Forest) (R : List Nat) (I : List Nat) (W : World) : Prop where
+structure Kept (W₀ : World) (Y : Forest) (R : List Nat) (I : List Nat) (A : List Nat) (W : World) : Prop where
   mem : Y ∈ W.trees
+  own : ∀ s ∈ Y.owned, s ∈ R
   lt : ∀ s ∈ R, s < W.nsym
+  iflt : ∀ i ∈ I, i < W.nif
   name : ∀ s ∈ R, W.name s = W₀.name s
-  deps : ∀ s ∈ R, W.deps s = W₀.deps s
+  links : ∀ s ∈ R, W.links s = W₀.links s
+  bounds : ∀ s ∈ Y.owned, W.bounds s = W₀.bounds s
+  init : ∀ s ∈ Y.owned, W.init s = W₀.init s
   iface : ∀ s ∈ R, W.iface s = W₀.iface s
   acc : ∀ i ∈ I, W.access i = W₀.access i
+  attr : ∀ a ∈ A, W.attrVal a = W₀.attrVal a
 
-theorem kept_apply {W₀ W : World} {Y : Forest} {R I : List Nat} (k : Kept W₀ Y R I W) (e : Edit)
-    (hf : e.foreign Y.ids R I) : Kept W₀ Y R I (apply W e) := by
-  obtain ⟨hn, hsy, hif⟩ := hf
+theorem kept_mapNodes {W₀ W : World} {Y : Forest} {R I A : List Nat} (k : Kept W₀ Y R I A W) (p : Nat)
+    (g : NodeRec → NodeRec) (hp : p ∉ footN W₀ Y) : Kept W₀ Y R I A (mapNodes W p g) := by
+  have hpY : p ∉ Y.ids := fun h => hp (List.mem_append_left _ h)
+  refine ⟨List.mem_map.mpr ⟨Y, k.mem, map_updNode_of_not_mem p _ Y hpY⟩, k.own, k.lt, k.iflt, k.name,
+    k.links, fun s hs => ?_, fun s hs => ?_, k.iface, k.acc, k.attr⟩
+  · show (W.bounds s).map (updNode p g) = W₀.bounds s
+    rw [k.bounds s hs]
+    exact map_updNode_of_not_mem p g _ (fun h => hp (List.mem_append_right _
+      (mem_declIds hs (List.mem_append_left _ h))))
+  · show (W.init s).map (updNode p g) = W₀.init s
+    rw [k.init s hs]
+    exact map_updNode_of_not_mem p g _ (fun h => hp (List.mem_append_right _
+      (mem_declIds hs (List.mem_append_right _ h))))
+
+theorem kept_apply {W₀ W : World} {Y : Forest} {R I A : List Nat} (k : Kept W₀ Y R I A W) (e : Edit)
+    (hf : e.foreign (footN W₀ Y) R I A) : Kept W₀ Y R I A (apply W e) := by
+  obtain ⟨hn, hsy, hif, hat⟩ := hf
+  have hnY : ∀ p ∈ e.nodes, p ∉ Y.ids := fun p hp h => hn p hp (List.mem_append_left _ h)
   cases e with
   | rename p s n =>
     have hs : s ∉ R := hsy s (by simp [Edit.symbols])
-    have hp : p ∉ Y.ids := hn p (by simp [Edit.nodes])
-    refine ⟨List.mem_map.mpr ⟨Y, k.mem, map_updNode_of_not_mem p _ Y hp⟩, k.lt, fun x hx => ?_, k.deps,
-      k.iface, k.acc⟩
+    have hp : p ∉ Y.ids := hnY p (by simp [Edit.nodes])
+    refine ⟨List.mem_map.mpr ⟨Y, k.mem, map_updNode_of_not_mem p _ Y hp⟩, k.own, k.lt, k.iflt,
+      fun x hx => ?_, k.links, k.bounds, k.init, k.iface, k.acc, k.attr⟩
     have : x ≠ s := fun h => hs (h ▸ hx)
     simp [apply, this, k.name x hx]
-  | setDeps s ds =>
+  | setDecl s ls bs ini =>
     have hs : s ∉ R := hsy s (by simp [Edit.symbols])
-    refine ⟨k.mem, k.lt, k.name, fun x hx => ?_, k.iface, k.acc⟩
-    have : x ≠ s := fun h => hs (h ▸ hx)
-    simp [apply, this, k.deps x hx]
+    have ne : ∀ x ∈ R, x ≠ s := fun x hx h => hs (h ▸ hx)
+    refine ⟨k.mem, k.own, k.lt, k.iflt, k.name, fun x hx => ?_, fun x hx => ?_, fun x hx => ?_, k.iface, k.acc, k.attr⟩
+    · simp [apply, ne x hx, k.links x hx]
+    · simp [apply, ne x (k.own x hx), k.bounds x hx]
+    · simp [apply, ne x (k.own x hx), k.init x hx]
+  | setIface s v =>
+    have hs : s ∉ R := hsy s (by simp [Edit.symbols])
+    have ne : ∀ x ∈ R, x ≠ s := fun x hx h => hs (h ▸ hx)
+    refine ⟨k.mem, k.own, k.lt, fun i hi => ?_, k.name, k.links, k.bounds, k.init, fun x hx => ?_,
+      fun i hi => ?_, k.attr⟩
+    · have := k.iflt i hi; simp only [apply]; omega
+    · simp [apply, ne x hx, k.iface x hx]
+    · have : i ≠ W.nif := Nat.ne_of_lt (k.iflt i hi)
+      simp [apply, this, k.acc i hi]
+  | setFresh s b => exact ⟨k.mem, k.own, k.lt, k.iflt, k.name, k.links, k.bounds, k.init, k.iface, k.acc, k.attr⟩
   | setAccess i v =>
     have hi : i ∉ I := hif i (by simp [Edit.ifaces])
-    refine ⟨k.mem, k.lt, k.name, k.deps, k.iface, fun x hx => ?_⟩
+    refine ⟨k.mem, k.own, k.lt, k.iflt, k.name, k.links, k.bounds, k.init, k.iface, fun x hx => ?_, k.attr⟩
     have : x ≠ i := fun h => hi (h ▸ hx)
     simp [apply, this, k.acc x hx]
-  | addSym p n ds fr =>
-    have hp : p ∉ Y.ids := hn p (by simp [Edit.nodes])
-    refine ⟨?_, fun x hx => ?_, fun x hx => ?_, fun x hx => ?_, fun x hx => ?_, k.acc⟩
+  | setAttr a v =>
+    have ha : a ∉ A := hat a (by simp [Edit.attrs])
+    refine ⟨k.mem, k.own, k.lt, k.iflt, k.name, k.links, k.bounds, k.init, k.iface, k.acc, fun x hx => ?_⟩
+    have : x ≠ a := fun h => ha (h ▸ hx)
+    simp [apply, this, k.attr x hx]
+  | addSym p n ls bs ini fr =>
+    have hp : p ∉ Y.ids := hnY p (by simp [Edit.nodes])
+    have ne : ∀ x ∈ R, x ≠ W.nsym := fun x hx => Nat.ne_of_lt (k.lt x hx)
+    refine ⟨?_, k.own, fun x hx => ?_, fun i hi => ?_, fun x hx => ?_, fun x hx => ?_, fun x hx => ?_,
+      fun x hx => ?_, fun x hx => ?_, k.acc, k.attr⟩
     · simp only [apply]
       exact List.mem_map.mpr ⟨Y, k.mem, map_updNode_of_not_mem p _ Y hp⟩
     · have := k.lt x hx; simp only [apply]; omega
-    · have : x ≠ W.nsym := Nat.ne_of_lt (k.lt x hx)
-      simp [apply, this, k.name x hx]
-    · have : x ≠ W.nsym := Nat.ne_of_lt (k.lt x hx)
-      simp [apply, this, k.deps x hx]
-    · have : x ≠ W.nsym := Nat.ne_of_lt (k.lt x hx)
-      simp [apply, this, k.iface x hx]
+    · have := k.iflt i hi; simp only [apply]; omega
+    · simp [apply, ne x hx, k.name x hx]
+    · simp [apply, ne x hx, k.links x hx]
+    · simp [apply, ne x (k.own x hx), k.bounds x hx]
+    · simp [apply, ne x (k.own x hx), k.init x hx]
+    · simp [apply, ne x hx, k.iface x hx]
   | removeSym p s =>
-    have hp : p ∉ Y.ids := hn p (by simp [Edit.nodes])
-    exact ⟨List.mem_map.mpr ⟨Y, k.mem, map_updNode_of_not_mem p _ Y hp⟩, k.lt, k.name, k.deps, k.iface, k.acc⟩
-  | setSym p s =>
-    have hp : p ∉ Y.ids := hn p (by simp [Edit.nodes])
-    exact ⟨List.mem_map.mpr ⟨Y, k.mem, map_updNode_of_not_mem p _ Y hp⟩, k.lt, k.name, k.deps, k.iface, k.acc⟩
-  | setTSym p s =>
-    have hp : p ∉ Y.ids := hn p (by simp [Edit.nodes])
-    exact ⟨List.mem_map.mpr ⟨Y, k.mem, map_updNode_of_not_mem p _ Y hp⟩, k.lt, k.name, k.deps, k.iface, k.acc⟩
+    have hp : p ∉ Y.ids := hnY p (by simp [Edit.nodes])
+    exact ⟨List.mem_map.mpr ⟨Y, k.mem, map_updNode_of_not_mem p _ Y hp⟩, k.own, k.lt, k.iflt, k.name,
+      k.links, k.bounds, k.init, k.iface, k.acc, k.attr⟩
+  | setSym p s => exact kept_mapNodes k p _ (hn p (by simp [Edit.nodes]))
+  | setTSym p s => exact kept_mapNodes k p _ (hn p (by simp [Edit.nodes]))
   | detach x =>
-    have hx : x ∉ Y.ids := hn x (by simp [Edit.nodes])
+    have hx : x ∉ Y.ids := hnY x (by simp [Edit.nodes])
     simp only [apply]
     split
     · exact k
-    · refine ⟨?_, k.lt, k.name, k.deps, k.iface, k.acc⟩
+    · refine ⟨?_, k.own, k.lt, k.iflt, k.name, k.links, k.bounds, k.init, k.iface, k.acc, k.attr⟩
       exact List.mem_append_left _ (List.mem_map.mpr ⟨Y, k.mem, remove_of_not_mem x Y hx⟩)
   | attach p i x =>
-    have hp : p ∉ Y.ids := hn p (by simp [Edit.nodes])
-    have hx : x ∉ Y.ids := hn x (by simp [Edit.nodes])
+    have hp : p ∉ Y.ids := hnY p (by simp [Edit.nodes])
+    have hx : x ∉ Y.ids := hnY x (by simp [Edit.nodes])
     simp only [apply]
     split
-    · refine ⟨?_, k.lt, k.name, k.deps, k.iface, k.acc⟩
+    · refine ⟨?_, k.own, k.lt, k.iflt, k.name, k.links, k.bounds, k.init, k.iface, k.acc, k.attr⟩
       refine List.mem_map.mpr ⟨Y, List.mem_map.mpr ⟨Y, k.mem, remove_of_not_mem x Y hx⟩, ?_⟩
       exact attach_of_not_mem p i _ Y hp
     · exact k
 
-theorem kept_run {W₀ : World} {Y : Forest} {R I : List Nat} (es : List Edit) :
-    ∀ W, Kept W₀ Y R I W → (∀ e ∈ es, e.foreign Y.ids R I) → Kept W₀ Y R I (run W es) := by
+theorem kept_run {W₀ : World} {Y : Forest} {R I A : List Nat} (es : List Edit) :
+    ∀ W, Kept W₀ Y R I A W → (∀ e ∈ es, e.foreign (footN W₀ Y) R I A) → Kept W₀ Y R I A (run W es) := by
   induction es with
   | nil => intro W k _; exact k
   | cons e es ih =>
     intro W k h
     exact ih (apply W e) (kept_apply k e (h e (by simp))) (fun e' he' => h e' (by simp [he']))
 
-theorem kept_view {W₀ W : World} {Y : Forest} (k : Kept W₀ Y (reads W₀ Y) (Y.owned.map W₀.iface) W) :
+theorem owned_mem_reads (W : World) (Y : Forest) : ∀ s ∈ Y.owned, s ∈ reads W Y := by
+  intro s hs
+  unfold reads; simp only [List.mem_append]; exact Or.inl (Or.inr hs)
+
+theorem deps_mem_reads (W : World) (Y : Forest) {s d : Nat} (hs : s ∈ Y.owned) (hd : d ∈ W.deps s) :
+    d ∈ reads W Y := by
+  unfold reads; simp only [List.mem_append, List.mem_flatMap]; exact Or.inr ⟨s, hs, hd⟩
+
+theorem kept_view {W₀ W : World} {Y : Forest}
+    (k : Kept W₀ Y (reads W₀ Y) (Y.owned.map W₀.iface) Y.attrs W) :
     view W Y = view W₀ Y := by
-  apply view_congr
+  refine view_congr _ _ _ ?_ ?_ k.attr
   · intro s hs
     exact k.name s (by unfold reads; exact List.mem_append_left _ hs)
   · intro s hs
-    have hs' : s ∈ reads W₀ Y := by
-      unfold reads; simp only [List.mem_append]; exact Or.inl (Or.inr hs)
-    refine ⟨?_, ?_⟩
-    · rw [k.deps s hs']
+    have hs' : s ∈ reads W₀ Y := owned_mem_reads W₀ Y s hs
+    refine ⟨?_, ?_, ?_, ?_⟩
+    · rw [k.links s hs']
       apply List.map_congr_left
       intro d hd
-      exact k.name d (by
-        unfold reads; simp only [List.mem_append, List.mem_flatMap]; exact Or.inr ⟨s, hs, hd⟩)
+      exact k.name d (deps_mem_reads W₀ Y hs (by simp [World.deps, hd]))
+    · rw [k.bounds s hs]
+      apply viewE_congr
+      intro d hd
+      exact k.name d (deps_mem_reads W₀ Y hs (by simp [World.deps, hd]))
+    · rw [k.init s hs]
+      apply viewE_congr
+      intro d hd
+      exact k.name d (deps_mem_reads W₀ Y hs (by simp [World.deps, hd]))
     · rw [k.iface s hs']
       exact k.acc _ (List.mem_map.mpr ⟨s, hs, rfl⟩)
 
-/-- **Frame.**  Edits that address neither a node of the tree `Y` nor a symbol its written code
-reads leave `Y` in place and its written code unchanged. -/
+/-- **Frame.**  Edits that address neither a node of the tree `Y` (or an expression node inside
+one of its declarations), nor a symbol its written code reads, nor an interface object of its
+symbols leave `Y` in place and its written code unchanged. -/
 theorem frame {W : World} {Y : Forest} (hY : Y ∈ W.trees) (hlt : ∀ s ∈ reads W Y, s < W.nsym)
-    (es : List Edit) (h : ∀ e ∈ es, e.foreign Y.ids (reads W Y) (Y.owned.map W.iface)) :
+    (hif : ∀ s, W.iface s < W.nif)
+    (es : List Edit) (h : ∀ e ∈ es, e.foreign (footN W Y) (reads W Y) (Y.owned.map W.iface) Y.attrs) :
     Y ∈ (run W es).trees ∧ view (run W es) Y = view W Y := by
-  have k := kept_run es W ⟨hY, hlt, fun _ _ => rfl, fun _ _ => rfl, fun _ _ => rfl, fun _ _ => rfl⟩ h
+  have k := kept_run es W ⟨hY, owned_mem_reads W Y, hlt,
+    (fun i hi => by obtain ⟨s, _, rfl⟩ := List.mem_map.mp hi; exact hif s),
+    fun _ _ => rfl, fun _ _ => rfl, fun _ _ => rfl, fun _ _ => rfl, fun _ _ => rfl, fun _ _ => rfl,
+    fun _ _ => rfl⟩ h
   exact ⟨k.mem, kept_view k⟩
 
 theorem reads_lt {W : World} (wf : WF W) {t : Forest} (ht : t ∈ W.trees) :
@@ -224,10 +300,12 @@ theorem reads_lt {W : World} (wf : WF W) {t : Forest} (ht : t ∈ W.trees) :
 
 /-! ## edits "on one tree" after a copy -/
 
-/-- an edit of the ORIGINAL side after `copy fixed W r`: it addresses nodes that existed before the
-copy, and changes (renames, retypes) only symbols declared in the copied scopes or symbols created
-after the copy.  (Outer-scope symbols are shared with the copy by design: the copy of a subtree
-keeps referring to them, so renaming them is an edit of both trees.) -/
+/-- an edit of the ORIGINAL side after `copy m W r`: it addresses nodes that existed before the
+copy (tree nodes or expression nodes of declarations), changes (renames, retypes, gives a new
+interface) only symbols declared in the copied scopes or symbols created after the copy, and
+changes attributes only of interface objects that existed before or were created after the copy.
+(Outer-scope symbols are shared with the copy by design: the copy of a subtree keeps referring to
+them, so renaming them is an edit of both trees.) -/
 def Edit.onOriginal (W : World) (r : Nat) (e : Edit) : Prop :=
   (∀ p ∈ e.nodes, p < W.nnode) ∧
   (∀ s ∈ e.symbols, s ∈ (sub W r).owned ∨ W.nsym + W.nsym ≤ s) ∧
@@ -239,28 +317,44 @@ def Edit.onOriginalAny (W : World) (e : Edit) : Prop :=
   (∀ p ∈ e.nodes, p < W.nnode) ∧ (∀ s ∈ e.symbols, s < W.nsym ∨ W.nsym + W.nsym ≤ s) ∧
   (∀ i ∈ e.ifaces, i < W.nif ∨ W.nif + W.nif ≤ i)
 
-/-- an edit of the COPY side: it addresses only nodes and symbols created by the copy or later -/
-def Edit.onCopy (W : World) (r : Nat) (e : Edit) : Prop :=
+/-- an edit of the COPY side: it addresses only nodes and symbols created by the copy or later, and
+the interface objects of the copy's symbols (new ones, or — unrepaired code — the shared ones) -/
+def Edit.onCopy (m : Mode) (W : World) (r : Nat) (e : Edit) : Prop :=
   (∀ p ∈ e.nodes, W.nnode ≤ p) ∧ (∀ s ∈ e.symbols, W.nsym ≤ s) ∧
-  (∀ i ∈ e.ifaces, W.nif ≤ i ∨ i ∈ sharedIfaces W (sub W r))
+  (∀ i ∈ e.ifaces, W.nif ≤ i ∨ i ∈ sharedIfaces m W (sub W r)) ∧
+  (∀ a ∈ e.attrs, a ∈ (copyTree m W r).attrs)
 
 /-- the edit changes no attribute of an interface object that the copy shares with the original
-(known finding C15-shared-interface: `TypedSymbol.copy` and its overrides pass the interface
-object of the original on) -/
-def Edit.noSharedIface (W : World) (r : Nat) (e : Edit) : Prop :=
-  ∀ i ∈ e.ifaces, i ∉ sharedIfaces W (sub W r)
+(`TypedSymbol.copy` and its overrides pass the interface object of the original on; repaired by
+fixes/C15-deepcopy-interfaces.patch) -/
+def Edit.noSharedIface (m : Mode) (W : World) (r : Nat) (e : Edit) : Prop :=
+  ∀ i ∈ e.ifaces, i ∉ sharedIfaces m W (sub W r)
+
+/-- the edit changes the state of no helper object that the copy shares with the original
+(`copy.copy` hands on every attribute that `_refine_copy` does not refine: the `KernelArguments`
+and the OpenCL option dict of a PSyKAl kernel; known findings C15-psykal-shared-*) -/
+def Edit.noSharedAttr (W : World) (r : Nat) (e : Edit) : Prop :=
+  ∀ a ∈ e.attrs, a ∉ (sub W r).attrs
+
+theorem copyTree_attrs (m : Mode) (W : World) (r : Nat) : (copyTree m W r).attrs = (sub W r).attrs :=
+  attrs_map_copy ..
+
+/-- with the interface repair nothing is shared -/
+theorem sharedIfaces_fixed (dt : Bool) (W : World) (S : Forest) : sharedIfaces ⟨dt, true⟩ W S = [] := by
+  simp [sharedIfaces, ownIface]
 
 /-- the subtree uses no symbol of an outer scope -/
 def Closed (W : World) (S : Forest) : Prop :=
   (∀ s ∈ S.syms ++ S.tsyms, s ∈ S.owned) ∧ (∀ s ∈ S.owned, ∀ d ∈ W.deps s, d ∈ S.owned)
 
-/-- the datatype-borne symbols are re-pointed (fixed code), or there are none to re-point -/
-def Sound (fixed : Bool) (W : World) (r : Nat) : Prop :=
-  fixed = true ∨ NoSymbolInDatatype W (sub W r)
+/-- the datatype-borne symbols are re-pointed (repaired code), or there are none to re-point and
+no datatype holds expression nodes -/
+def Sound (m : Mode) (W : World) (r : Nat) : Prop :=
+  m.dt = true ∨ NoSymbolInDatatype W (sub W r)
 
-theorem rhoT_target {fx : Bool} {W : World} (r : Nat) (hs : Sound fx W r) {o : Nat}
+theorem rhoT_target {m : Mode} {W : World} (r : Nat) (hs : Sound m W r) {o : Nat}
     (ho : o ∈ (sub W r).tsyms ∨ ∃ q ∈ (sub W r).owned, o ∈ W.deps q) :
-    rhoT fx (sub W r).owned W.nsym o = rho (sub W r).owned W.nsym o := by
+    rhoT m.dt (sub W r).owned W.nsym o = rho (sub W r).owned W.nsym o := by
   unfold rhoT
   split
   · rfl
@@ -270,55 +364,101 @@ theorem rhoT_target {fx : Bool} {W : World} (r : Nat) (hs : Sound fx W r) {o : N
     · have : o ∉ (sub W r).owned := by
         rcases ho with ho | ⟨q, hq, ho⟩
         · exact h.1 o ho
-        · exact h.2 q hq o ho
+        · exact h.2.1 q hq o ho
       rw [rho_not_mem this]
+
+/-- the expression nodes inside the declarations of the copy are new objects -/
+theorem declIds_copy_ge {m : Mode} {W : World} (r : Nat) (hs : Sound m W r) :
+    ∀ i ∈ (copy m W r).declIds (copyTree m W r).owned, W.nnode ≤ i := by
+  intro i hi
+  obtain ⟨c, hc, hi⟩ := List.mem_flatMap.mp hi
+  rw [copyTree_owned] at hc
+  obtain ⟨s, hsm, rfl⟩ := List.mem_map.mp hc
+  rw [bounds_copy_new m W r hsm, init_copy_new m W r hsm] at hi
+  rcases List.mem_append.mp hi with hi | hi
+  · split at hi
+    · rw [ids_map_ecopy] at hi
+      obtain ⟨j, _, rfl⟩ := List.mem_map.mp hi
+      omega
+    · rename_i hdt
+      rcases hs with h | h
+      · exact absurd h hdt
+      · rw [h.2.2 s hsm] at hi
+        simp [Forest.ids] at hi
+  · rw [ids_map_ecopy] at hi
+    obtain ⟨j, _, rfl⟩ := List.mem_map.mp hi
+    omega
 
 /-! ## The property -/
 
 /-- **Equal.**  The copy has the same classes, shape, symbol names and declarations as the
-subtree it was copied from (both modes: at copy time the names still agree). -/
-theorem C15_copy_equal (fixed : Bool) {W : World} (wf : WF W) (r : Nat) :
-    view (copy fixed W r) (copyTree fixed W r) = view W (sub W r) := by
+subtree it was copied from (all modes: at copy time the names still agree). -/
+theorem C15_copy_equal (m : Mode) {W : World} (wf : WF W) (r : Nat) :
+    view (copy m W r) (copyTree m W r) = view W (sub W r) := by
   have hlt := sub_syms_lt wf r
   simp only [List.mem_append] at hlt
   unfold copyTree
-  apply view_map_copy W (copy fixed W r) (rho (sub W r).owned W.nsym) (rhoT fixed (sub W r).owned W.nsym)
+  apply view_map_copy W (copy m W r) (rho (sub W r).owned W.nsym) (rhoT m.dt (sub W r).owned W.nsym)
   · intro _; rfl
   · intro _; rfl
-  · intro s hs; exact name_copy_rho fixed W r (hlt s (Or.inl (Or.inl hs)))
-  · intro s hs; exact name_copy_rhoT fixed W r (hlt s (Or.inl (Or.inr hs)))
+  · intro s hs; exact name_copy_rho m W r (hlt s (Or.inl (Or.inl hs)))
+  · intro s hs; exact name_copy_rhoT m m.dt W r (hlt s (Or.inl (Or.inr hs)))
   · intro s hs
-    refine ⟨name_copy_rho fixed W r (hlt s (Or.inr hs)), ?_, ?_⟩
-    · rw [rho_mem hs, deps_copy_new fixed W r hs, List.map_map]
+    have hd : ∀ d ∈ W.deps s, d < W.nsym := fun d hd => wf.deps_lt s d hd
+    refine ⟨name_copy_rho m W r (hlt s (Or.inr hs)), ?_, ?_, ?_, ?_⟩
+    · rw [rho_mem hs, links_copy_new m W r hs, List.map_map]
       apply List.map_congr_left
-      intro d hd
-      exact name_copy_rhoT fixed W r (wf.deps_lt s d hd)
+      intro d hdm
+      exact name_copy_rhoT m m.dt W r (hd d (by simp [World.deps, hdm]))
+    · rw [rho_mem hs, bounds_copy_new m W r hs]
+      split
+      · apply viewE_map_ecopy
+        intro d hdm
+        exact name_copy_rhoT m true W r (hd d (by simp [World.deps, hdm]))
+      · apply viewE_congr
+        intro d hdm
+        exact name_copy_old m W r (hd d (by simp [World.deps, hdm]))
+    · rw [rho_mem hs, init_copy_new m W r hs]
+      apply viewE_map_ecopy
+      intro d hdm
+      exact name_copy_rhoT m m.dt W r (hd d (by simp [World.deps, hdm]))
     · rw [rho_mem hs]
-      exact access_iface_copy_new fixed W r hs (wf.iface_lt s)
+      exact access_iface_copy_new m W r hs (wf.iface_lt s)
+  · intro _ _; rfl
 
 /-- the original trees are not touched by the copy: still there, same written code -/
-theorem C15_copy_keeps_original (fixed : Bool) {W : World} (wf : WF W) (r : Nat) {t : Forest}
+theorem C15_copy_keeps_original (m : Mode) {W : World} (wf : WF W) (r : Nat) {t : Forest}
     (ht : t ∈ W.trees) :
-    t ∈ (copy fixed W r).trees ∧ view (copy fixed W r) t = view W t := by
-  refine ⟨old_tree_mem fixed W r ht, view_congr _ _ _ ?_ ?_⟩
-  · intro s hs; exact name_copy_old fixed W r (wf.syms_lt t ht s hs)
+    t ∈ (copy m W r).trees ∧ view (copy m W r) t = view W t := by
+  refine ⟨old_tree_mem m W r ht, view_congr _ _ _ ?_ ?_ (fun _ _ => rfl)⟩
+  · intro s hs; exact name_copy_old m W r (wf.syms_lt t ht s hs)
   · intro s hs
     have hs' : s < W.nsym := wf.syms_lt t ht s (List.mem_append_right _ hs)
-    refine ⟨?_, ?_⟩
-    · rw [deps_copy_old fixed W r hs']
+    have hd : ∀ d ∈ W.deps s, (copy m W r).name d = W.name d :=
+      fun d hd => name_copy_old m W r (wf.deps_lt s d hd)
+    refine ⟨?_, ?_, ?_, ?_⟩
+    · rw [links_copy_old m W r hs']
       apply List.map_congr_left
-      intro d hd
-      exact name_copy_old fixed W r (wf.deps_lt s d hd)
-    · rw [iface_copy_old fixed W r hs']
-      exact access_copy_old fixed W r (wf.iface_lt s)
+      intro d hdm
+      exact hd d (by simp [World.deps, hdm])
+    · rw [bounds_copy_old m W r hs']
+      apply viewE_congr
+      intro d hdm
+      exact hd d (by simp [World.deps, hdm])
+    · rw [init_copy_old m W r hs']
+      apply viewE_congr
+      intro d hdm
+      exact hd d (by simp [World.deps, hdm])
+    · rw [iface_copy_old m W r hs']
+      exact access_copy_old m W r (wf.iface_lt s)
 
 /-- **Disjoint.**  The copy shares no node identity with any tree that existed before, and the
 symbols of its tables are new: none existed before, in particular none is a symbol of the
-original's copied scopes (both modes). -/
-theorem C15_copy_disjoint (fixed : Bool) {W : World} (wf : WF W) (r : Nat) :
-    (∀ t ∈ W.trees, ∀ i ∈ (copyTree fixed W r).ids, i ∉ t.ids) ∧
-    (∀ s ∈ (copyTree fixed W r).owned, W.nsym ≤ s ∧ s ∉ (sub W r).owned) ∧
-    (∀ t ∈ W.trees, ∀ s ∈ (copyTree fixed W r).owned, s ∉ t.syms ++ t.tsyms ++ t.owned) := by
+original's copied scopes (all modes). -/
+theorem C15_copy_disjoint (m : Mode) {W : World} (wf : WF W) (r : Nat) :
+    (∀ t ∈ W.trees, ∀ i ∈ (copyTree m W r).ids, i ∉ t.ids) ∧
+    (∀ s ∈ (copyTree m W r).owned, W.nsym ≤ s ∧ s ∉ (sub W r).owned) ∧
+    (∀ t ∈ W.trees, ∀ s ∈ (copyTree m W r).owned, s ∉ t.syms ++ t.tsyms ++ t.owned) := by
   refine ⟨?_, ?_, ?_⟩
   · intro t ht i hi hit
     rw [copyTree_ids] at hi
@@ -337,45 +477,58 @@ theorem C15_copy_disjoint (fixed : Bool) {W : World} (wf : WF W) (r : Nat) :
     have := wf.syms_lt t ht _ hst
     omega
 
+/-- **Disjoint, inside declarations.**  With the datatype repair the expression nodes inside the
+declarations of the copy (array bounds, default initialisers of derived-type components, initial
+values) are new objects: none is a node of a tree that existed before, none belongs to the
+declaration of any symbol that existed before. -/
+theorem C15_copy_decl_disjoint {m : Mode} {W : World} (wf : WF W) (r : Nat) (hs : Sound m W r) :
+    ∀ i ∈ (copy m W r).declIds (copyTree m W r).owned,
+      (∀ t ∈ W.trees, i ∉ t.ids) ∧ (∀ s, i ∉ (W.bounds s).ids ++ (W.init s).ids) := by
+  intro i hi
+  have hge := declIds_copy_ge r hs i hi
+  refine ⟨fun t ht h => ?_, fun s h => ?_⟩
+  · have := wf.ids_lt t ht i h; omega
+  · have := wf.decl_lt s i h; omega
+
 /-- the copy has as many nodes and as many declared symbols as the original subtree -/
-theorem C15_copy_same_size (fixed : Bool) (W : World) (r : Nat) :
-    (copyTree fixed W r).ids.length = (sub W r).ids.length ∧
-    (copyTree fixed W r).owned.length = (sub W r).owned.length := by
+theorem C15_copy_same_size (m : Mode) (W : World) (r : Nat) :
+    (copyTree m W r).ids.length = (sub W r).ids.length ∧
+    (copyTree m W r).owned.length = (sub W r).owned.length := by
   rw [copyTree_ids, copyTree_owned]; simp
 
 /-- **References internal.**  Every symbol that the written code of the copy reads — through a
 reference, a loop variable, the kind of a literal, a table entry, or the datatype / initial value
 of a declared symbol — is either declared by the copy itself or is an outer-scope symbol that
-existed before and is not declared in the copied scopes.  Holds for the fixed code, and for the
+existed before and is not declared in the copied scopes.  Holds for the repaired code, and for the
 pinned code when no datatype uses a symbol of the copied scopes. -/
-theorem C15_copy_refs_internal {fixed : Bool} {W : World} (wf : WF W) (r : Nat)
-    (hs : Sound fixed W r) :
-    ∀ s ∈ reads (copy fixed W r) (copyTree fixed W r),
-      s ∈ (copyTree fixed W r).owned ∨ (s < W.nsym ∧ s ∉ (sub W r).owned) := by
+theorem C15_copy_refs_internal {m : Mode} {W : World} (wf : WF W) (r : Nat)
+    (hs : Sound m W r) :
+    ∀ s ∈ reads (copy m W r) (copyTree m W r),
+      s ∈ (copyTree m W r).owned ∨ (s < W.nsym ∧ s ∉ (sub W r).owned) := by
   intro s hsr
   rcases reads_copy wf r s hsr with ⟨o, ho, rfl⟩ | ⟨o, ho, hwhere, rfl⟩
-  · exact rho_target r ho fixed
+  · exact rho_target r ho m
   · rw [rhoT_target r hs hwhere]
-    exact rho_target r ho fixed
+    exact rho_target r ho m
 
 /-- in particular no symbol of the original's copied scopes is read by the copy -/
-theorem C15_copy_reads_no_original {fixed : Bool} {W : World} (wf : WF W) (r : Nat)
-    (hs : Sound fixed W r) :
-    ∀ s ∈ reads (copy fixed W r) (copyTree fixed W r), s ∉ (sub W r).owned := by
+theorem C15_copy_reads_no_original {m : Mode} {W : World} (wf : WF W) (r : Nat)
+    (hs : Sound m W r) :
+    ∀ s ∈ reads (copy m W r) (copyTree m W r), s ∉ (sub W r).owned := by
   intro s hsr hmem
   rcases C15_copy_refs_internal wf r hs s hsr with h | h
-  · exact ((C15_copy_disjoint fixed wf r).2.1 s h).2 hmem
+  · exact ((C15_copy_disjoint m wf r).2.1 s h).2 hmem
   · exact h.2 hmem
 
 /-- the interface objects of the copy's symbols: new ones, or the shared ones -/
-theorem C15_copy_ifaces (fixed : Bool) {W : World} (wf : WF W) (r : Nat) :
-    ∀ i ∈ (copyTree fixed W r).owned.map (copy fixed W r).iface,
-      (W.nif ≤ i ∧ i < W.nif + W.nif) ∨ i ∈ sharedIfaces W (sub W r) := by
+theorem C15_copy_ifaces (m : Mode) {W : World} (wf : WF W) (r : Nat) :
+    ∀ i ∈ (copyTree m W r).owned.map (copy m W r).iface,
+      (W.nif ≤ i ∧ i < W.nif + W.nif) ∨ i ∈ sharedIfaces m W (sub W r) := by
   intro i hi
   obtain ⟨c, hc, rfl⟩ := List.mem_map.mp hi
   rw [copyTree_owned] at hc
   obtain ⟨s, hs, rfl⟩ := List.mem_map.mp hc
-  rw [iface_copy_new fixed W r hs]
+  rw [iface_copy_new m W r hs]
   have := wf.iface_lt s
   split
   · left; omega
@@ -385,11 +538,11 @@ theorem C15_copy_ifaces (fixed : Bool) {W : World} (wf : WF W) (r : Nat) :
     exact List.mem_map.mpr ⟨s, List.mem_filter.mpr ⟨hs, by simp [hfr]⟩, rfl⟩
 
 /-- a closed subtree (e.g. a whole program) is copied to a tree that reads only its own symbols -/
-theorem C15_copy_closed {fixed : Bool} {W : World} (wf : WF W) (r : Nat)
-    (hs : Sound fixed W r) (hc : Closed W (sub W r)) :
-    ∀ s ∈ reads (copy fixed W r) (copyTree fixed W r), s ∈ (copyTree fixed W r).owned := by
+theorem C15_copy_closed {m : Mode} {W : World} (wf : WF W) (r : Nat)
+    (hs : Sound m W r) (hc : Closed W (sub W r)) :
+    ∀ s ∈ reads (copy m W r) (copyTree m W r), s ∈ (copyTree m W r).owned := by
   intro s hsr
-  have inOwn : ∀ o, o ∈ (sub W r).owned → rho (sub W r).owned W.nsym o ∈ (copyTree fixed W r).owned := by
+  have inOwn : ∀ o, o ∈ (sub W r).owned → rho (sub W r).owned W.nsym o ∈ (copyTree m W r).owned := by
     intro o ho
     rw [rho_mem ho, copyTree_owned]
     exact List.mem_map.mpr ⟨o, ho, rfl⟩
@@ -408,7 +561,7 @@ theorem C15_copy_closed {fixed : Bool} {W : World} (wf : WF W) (r : Nat)
       simp only [List.mem_append, List.mem_flatMap] at hsr
       have himg : ∀ x ∈ (sub W r).owned, rho (sub W r).owned W.nsym x ≠ o := by
         intro x hx; rw [rho_mem hx]; omega
-      have himgT : ∀ x ∈ (sub W r).owned, rhoT fixed (sub W r).owned W.nsym x ≠ o := by
+      have himgT : ∀ x ∈ (sub W r).owned, rhoT m.dt (sub W r).owned W.nsym x ≠ o := by
         intro x hx hxo
         unfold rhoT at hxo
         split at hxo
@@ -427,7 +580,7 @@ theorem C15_copy_closed {fixed : Bool} {W : World} (wf : WF W) (r : Nat)
       · obtain ⟨c, hcm, hd⟩ := h
         rw [copyTree_owned] at hcm
         obtain ⟨q, hq, rfl⟩ := List.mem_map.mp hcm
-        rw [deps_copy_new fixed W r hq] at hd
+        rw [deps_copy_new m W r hq] at hd
         obtain ⟨x, hx, hxo⟩ := List.mem_map.mp hd
         exact himgT x (hc.2 q hq x hx) hxo
   · rw [rhoT_target r hs hwhere]
@@ -437,160 +590,21 @@ theorem C15_copy_closed {fixed : Bool} {W : World} (wf : WF W) (r : Nat)
       · exact hc.2 q hq o h
     exact inOwn o this
 
-/-- the last clause of the property for one copy mode and one class of edit lists `ok`: after
-`c = node.copy()`, (1) edits of the original side leave the written code of the copy equal to
-that of the original subtree at copy time, and (2) edits of the copy side leave every original
-tree in place with its written code unchanged. -/
-def Independent (fixed : Bool) (ok : World → Nat → Edit → Prop) : Prop :=
-  ∀ (W : World), WF W → ∀ (r : Nat) (es : List Edit), (∀ e ∈ es, ok W r e) →
-    ((∀ e ∈ es, e.onOriginal W r) →
-      copyTree fixed W r ∈ (run (copy fixed W r) es).trees ∧
-      view (run (copy fixed W r) es) (copyTree fixed W r) = view W (sub W r)) ∧
-    ((∀ e ∈ es, e.onCopy W r) →
-      ∀ t ∈ W.trees, t ∈ (run (copy fixed W r) es).trees ∧
-        view (run (copy fixed W r) es) t = view W t)
-
-/-- the FULL statement: all edits, including changes of the attributes of interface objects -/
-def C15_statement (fixed : Bool) : Prop := Independent fixed (fun _ _ _ => True)
-
-/-- the statement for edits that change no attribute of a shared interface object -/
-def C15_statement_partial (fixed : Bool) : Prop := Independent fixed Edit.noSharedIface
-
-/-- edits of the original leave the copy's written code unchanged (needs `Sound`) -/
-theorem C15_edit_original_keeps_copy {fixed : Bool} {W : World} (wf : WF W) (r : Nat)
-    (hs : Sound fixed W r) (es : List Edit) (hno : ∀ e ∈ es, e.noSharedIface W r)
-    (h : ∀ e ∈ es, e.onOriginal W r) :
-    copyTree fixed W r ∈ (run (copy fixed W r) es).trees ∧
-    view (run (copy fixed W r) es) (copyTree fixed W r) = view W (sub W r) := by
-  have hint := C15_copy_refs_internal wf r hs
-  have hnew := (C15_copy_disjoint fixed wf r).2.1
-  have hlt : ∀ s ∈ reads (copy fixed W r) (copyTree fixed W r), s < (copy fixed W r).nsym := by
-    intro s hsr
-    show s < W.nsym + W.nsym
-    rcases hint s hsr with h' | h'
-    · rw [copyTree_owned] at h'
-      obtain ⟨o, ho, rfl⟩ := List.mem_map.mp h'
-      have := sub_syms_lt wf r o (List.mem_append_right _ ho)
-      omega
-    · omega
-  have hf : ∀ e ∈ es, e.foreign (copyTree fixed W r).ids (reads (copy fixed W r) (copyTree fixed W r))
-      ((copyTree fixed W r).owned.map (copy fixed W r).iface) := by
-    intro e he
-    obtain ⟨h1, h2, h3⟩ := h e he
-    refine ⟨fun p hp hmem => ?_, fun s hsy hmem => ?_, fun i hi hmem => ?_⟩
-    · rw [copyTree_ids] at hmem
-      obtain ⟨j, _, rfl⟩ := List.mem_map.mp hmem
-      have := h1 _ hp
-      omega
-    · rcases h2 s hsy with hown | hbig
-      · exact C15_copy_reads_no_original wf r hs s hmem hown
-      · have := hlt s hmem
-        have : s < W.nsym + W.nsym := this
-        omega
-    · rcases C15_copy_ifaces fixed wf r i hmem with hr | hsh
-      · rcases h3 i hi with h' | h' <;> omega
-      · exact hno e he i hi hsh
-  have := frame (copyTree_mem fixed W r) hlt es hf
-  exact ⟨this.1, this.2.trans (C15_copy_equal fixed wf r)⟩
-
-/-- edits of the copy leave every original tree's written code unchanged (both modes) -/
-theorem C15_edit_copy_keeps_original (fixed : Bool) {W : World} (wf : WF W) (r : Nat)
-    (es : List Edit) (hno : ∀ e ∈ es, e.noSharedIface W r) (h : ∀ e ∈ es, e.onCopy W r)
-    {t : Forest} (ht : t ∈ W.trees) :
-    t ∈ (run (copy fixed W r) es).trees ∧ view (run (copy fixed W r) es) t = view W t := by
-  obtain ⟨hmem, hview⟩ := C15_copy_keeps_original fixed wf r ht
-  have hlt0 : ∀ s ∈ reads (copy fixed W r) t, s < W.nsym := by
-    intro s hs
-    unfold reads at hs
-    rcases List.mem_append.mp hs with hs | hs
-    · exact wf.syms_lt t ht s hs
-    · obtain ⟨q, hq, hd⟩ := List.mem_flatMap.mp hs
-      have hq' : q < W.nsym := wf.syms_lt t ht q (List.mem_append_right _ hq)
-      rw [deps_copy_old fixed W r hq'] at hd
-      exact wf.deps_lt q s hd
-  have hlt : ∀ s ∈ reads (copy fixed W r) t, s < (copy fixed W r).nsym := by
-    intro s hs
-    have := hlt0 s hs
-    show s < W.nsym + W.nsym
-    omega
-  have hf : ∀ e ∈ es, e.foreign t.ids (reads (copy fixed W r) t) (t.owned.map (copy fixed W r).iface) := by
-    intro e he
-    obtain ⟨h1, h2, h3⟩ := h e he
-    refine ⟨fun p hp hmem' => ?_, fun s hsy hmem' => ?_, fun i hi hmem' => ?_⟩
-    · have := wf.ids_lt t ht p hmem'
-      have := h1 p hp
-      omega
-    · have := hlt0 s hmem'
-      have := h2 s hsy
-      omega
-    · obtain ⟨s, hs, rfl⟩ := List.mem_map.mp hmem'
-      have hs' : s < W.nsym := wf.syms_lt t ht s (List.mem_append_right _ hs)
-      rw [iface_copy_old fixed W r hs'] at hi
-      rcases h3 _ hi with h' | h'
-      · have := wf.iface_lt s; omega
-      · exact hno e he _ hi h'
-  have := frame hmem hlt es hf
-  exact ⟨this.1, this.2.trans hview⟩
-
-/-- **Independent.**  The fixed code satisfies the statement for all edit lists that change no
-attribute of a shared interface object. -/
-theorem C15_edit_independent : C15_statement_partial true := by
-  intro W wf r es hno
-  exact ⟨C15_edit_original_keeps_copy wf r (Or.inl rfl) es hno,
-         fun h t ht => C15_edit_copy_keeps_original true wf r es hno h ht⟩
-
-/-- **Independent, closed subtree** (e.g. the copy of a whole program): the edits of the original
-may rename or retype *any* symbol that existed before the copy. -/
-theorem C15_edit_independent_closed {fixed : Bool} {W : World} (wf : WF W) (r : Nat)
-    (hs : Sound fixed W r) (hc : Closed W (sub W r)) (es : List Edit)
-    (hno : ∀ e ∈ es, e.noSharedIface W r) (h : ∀ e ∈ es, e.onOriginalAny W) :
-    copyTree fixed W r ∈ (run (copy fixed W r) es).trees ∧
-    view (run (copy fixed W r) es) (copyTree fixed W r) = view W (sub W r) := by
-  have hown := C15_copy_closed wf r hs hc
-  have hnew := (C15_copy_disjoint fixed wf r).2.1
-  have hrange : ∀ s ∈ reads (copy fixed W r) (copyTree fixed W r), W.nsym ≤ s ∧ s < W.nsym + W.nsym := by
-    intro s hsr
-    have h' := hown s hsr
-    refine ⟨(hnew s h').1, ?_⟩
-    rw [copyTree_owned] at h'
-    obtain ⟨o, ho, rfl⟩ := List.mem_map.mp h'
-    have := sub_syms_lt wf r o (List.mem_append_right _ ho)
-    omega
-  have hf : ∀ e ∈ es, e.foreign (copyTree fixed W r).ids (reads (copy fixed W r) (copyTree fixed W r))
-      ((copyTree fixed W r).owned.map (copy fixed W r).iface) := by
-    intro e he
-    obtain ⟨h1, h2, h3⟩ := h e he
-    refine ⟨fun p hp hmem => ?_, fun s hsy hmem => ?_, fun i hi hmem => ?_⟩
-    · rw [copyTree_ids] at hmem
-      obtain ⟨j, _, rfl⟩ := List.mem_map.mp hmem
-      have := h1 _ hp
-      omega
-    · have := hrange s hmem
-      rcases h2 s hsy with h' | h' <;> omega
-    · rcases C15_copy_ifaces fixed wf r i hmem with hr | hsh
-      · rcases h3 i hi with h' | h' <;> omega
-      · exact hno e he i hi hsh
-  have := frame (copyTree_mem fixed W r) (fun s hsr => (hrange s hsr).2) es hf
-  exact ⟨this.1, this.2.trans (C15_copy_equal fixed wf r)⟩
-
-/-- **Partial (pinned code).**  Without the fix the statement holds for every subtree in which no
-datatype (kind parameter, array bound, initial value, kind of a literal) uses a symbol declared
-inside the subtree. -/
-theorem C15_pinned_partial {W : World} (wf : WF W) (r : Nat)
-    (hn : NoSymbolInDatatype W (sub W r)) (es : List Edit) (hno : ∀ e ∈ es, e.noSharedIface W r) :
-    ((∀ e ∈ es, e.onOriginal W r) →
-      copyTree false W r ∈ (run (copy false W r) es).trees ∧
-      view (run (copy false W r) es) (copyTree false W r) = view W (sub W r)) ∧
-    ((∀ e ∈ es, e.onCopy W r) →
-      ∀ t ∈ W.trees, t ∈ (run (copy false W r) es).trees ∧
-        view (run (copy false W r) es) t = view W t) :=
-  ⟨C15_edit_original_keeps_copy wf r (Or.inr hn) es hno,
-   fun h _ ht => C15_edit_copy_keeps_original false wf r es hno h ht⟩
+theorem isNew_mem {own : List Nat} {off x : Nat} (h : isNew own off x = true) :
+    ∃ q ∈ own, x = q + off := by
+  simp [isNew] at h
+  exact ⟨x - off, h.2, by omega⟩
 
 /-- copies can be copied and edited again: the allocation invariant survives a copy -/
-theorem C15_copy_wf (fixed : Bool) {W : World} (wf : WF W) (r : Nat) : WF (copy fixed W r) := by
+theorem C15_copy_wf (m : Mode) {W : World} (wf : WF W) (r : Nat) : WF (copy m W r) := by
   have hlt := sub_syms_lt wf r
-  refine ⟨?_, ?_, ?_, ?_⟩
+  have hr : ∀ o, o < W.nsym → rho (sub W r).owned W.nsym o < W.nsym + W.nsym := by
+    intro o ho; unfold rho; split <;> omega
+  have hrT : ∀ b o, o < W.nsym → rhoT b (sub W r).owned W.nsym o < W.nsym + W.nsym := by
+    intro b o ho; unfold rhoT; split
+    · exact hr o ho
+    · omega
+  refine ⟨?_, ?_, ?_, ?_, ?_⟩
   · intro t ht i hi
     show i < W.nnode + W.nnode
     simp only [copy, List.mem_append, List.mem_singleton] at ht
@@ -604,65 +618,288 @@ theorem C15_copy_wf (fixed : Bool) {W : World} (wf : WF W) (r : Nat) : WF (copy 
     simp only [copy, List.mem_append, List.mem_singleton] at ht
     rcases ht with ht | rfl
     · have := wf.syms_lt t ht s hs; omega
-    · have hr : ∀ o, o < W.nsym → rho (sub W r).owned W.nsym o < W.nsym + W.nsym := by
-        intro o ho; unfold rho; split <;> omega
-      have hrT : ∀ o, o < W.nsym → rhoT fixed (sub W r).owned W.nsym o < W.nsym + W.nsym := by
-        intro o ho; unfold rhoT; split
-        · exact hr o ho
-        · omega
-      simp only [List.mem_append] at hs hlt
+    · simp only [List.mem_append] at hs hlt
       unfold copyTree at hs
       rw [syms_map_copy, tsyms_map_copy, owned_map_copy] at hs
       rcases hs with (hs | hs) | hs
       · obtain ⟨o, ho, rfl⟩ := List.mem_map.mp hs
         exact hr o (hlt o (Or.inl (Or.inl ho)))
       · obtain ⟨o, ho, rfl⟩ := List.mem_map.mp hs
-        exact hrT o (hlt o (Or.inl (Or.inr ho)))
+        exact hrT _ o (hlt o (Or.inl (Or.inr ho)))
       · obtain ⟨o, ho, rfl⟩ := List.mem_map.mp hs
         exact hr o (hlt o (Or.inr ho))
   · intro s d hd
     show d < W.nsym + W.nsym
-    simp only [copy] at hd
-    split at hd
-    · obtain ⟨o, ho, rfl⟩ := List.mem_map.mp hd
-      have := wf.deps_lt _ o ho
-      unfold rhoT rho
-      split
-      · split <;> omega
-      · omega
-    · have := wf.deps_lt s d hd; omega
+    by_cases hn : isNew (sub W r).owned W.nsym s = true
+    · obtain ⟨q, hq, rfl⟩ := isNew_mem hn
+      rw [deps_copy_new m W r hq] at hd
+      obtain ⟨o, ho, rfl⟩ := List.mem_map.mp hd
+      exact hrT _ o (wf.deps_lt q o ho)
+    · have hn' : isNew (sub W r).owned W.nsym s = false := by simpa using hn
+      have : (copy m W r).deps s = W.deps s := by
+        simp [World.deps, copy, hn']
+      rw [this] at hd
+      have := wf.deps_lt s d hd; omega
   · intro s
-    show (copy fixed W r).iface s < W.nif + W.nif
+    show (copy m W r).iface s < W.nif + W.nif
     simp only [copy]
     split
     · have := wf.iface_lt (s - W.nsym)
       split <;> omega
     · have := wf.iface_lt s; omega
+  · intro s i hi
+    show i < W.nnode + W.nnode
+    by_cases hn : isNew (sub W r).owned W.nsym s = true
+    · obtain ⟨q, hq, rfl⟩ := isNew_mem hn
+      rw [bounds_copy_new m W r hq, init_copy_new m W r hq] at hi
+      have hq' := wf.decl_lt q
+      rcases List.mem_append.mp hi with hi | hi
+      · split at hi
+        · rw [ids_map_ecopy] at hi
+          obtain ⟨j, hj, rfl⟩ := List.mem_map.mp hi
+          have := hq' j (List.mem_append_left _ hj); omega
+        · have := hq' i (List.mem_append_left _ hi); omega
+      · rw [ids_map_ecopy] at hi
+        obtain ⟨j, hj, rfl⟩ := List.mem_map.mp hi
+        have := hq' j (List.mem_append_right _ hj); omega
+    · have hn' : isNew (sub W r).owned W.nsym s = false := by simpa using hn
+      have hb : (copy m W r).bounds s = W.bounds s := by simp [copy, hn']
+      have hi' : (copy m W r).init s = W.init s := by simp [copy, hn']
+      rw [hb, hi'] at hi
+      have := wf.decl_lt s i hi; omega
 
-/-! ## The pinned code violates the property: kernel-checked witness
+theorem C15_copy_wf_iface (m : Mode) {W : World} (wf : WF W) (r : Nat) :
+    ∀ s, (copy m W r).iface s < (copy m W r).nif := (C15_copy_wf m wf r).iface_lt
+
+/-- the last clause of the property for one mode and one class of edit lists `ok`: after
+`c = node.copy()`, (1) edits of the original side leave the written code of the copy equal to
+that of the original subtree at copy time, and (2) edits of the copy side leave every original
+tree in place with its written code unchanged. -/
+def Independent (m : Mode) (ok : World → Nat → Edit → Prop) : Prop :=
+  ∀ (W : World), WF W → ∀ (r : Nat) (es : List Edit), (∀ e ∈ es, ok W r e) →
+    ((∀ e ∈ es, e.onOriginal W r) →
+      copyTree m W r ∈ (run (copy m W r) es).trees ∧
+      view (run (copy m W r) es) (copyTree m W r) = view W (sub W r)) ∧
+    ((∀ e ∈ es, e.onCopy m W r) →
+      ∀ t ∈ W.trees, t ∈ (run (copy m W r) es).trees ∧
+        view (run (copy m W r) es) t = view W t)
+
+/-- the FULL statement: all edits, including changes of the state of the helper objects held by
+nodes (PSyKAl kernels) -/
+def C15_statement_full (m : Mode) : Prop := Independent m (fun _ _ _ => True)
+
+/-- the statement for all edits that do not change a helper object shared by a node and its copy
+(for trees of the generic PSyIR, whose nodes hold none, that is all edits:
+`C15_edit_independent_generic`) -/
+def C15_statement (m : Mode) : Prop := Independent m (fun W r e => e.noSharedAttr W r)
+
+/-- …and that change no attribute of a shared interface object either -/
+def C15_statement_partial (m : Mode) : Prop :=
+  Independent m (fun W r e => e.noSharedAttr W r ∧ e.noSharedIface m W r)
+
+/-- edits of the original leave the copy's written code unchanged (needs `Sound`) -/
+theorem C15_edit_original_keeps_copy {m : Mode} {W : World} (wf : WF W) (r : Nat)
+    (hs : Sound m W r) (es : List Edit) (hna : ∀ e ∈ es, e.noSharedAttr W r)
+    (hno : ∀ e ∈ es, e.noSharedIface m W r)
+    (h : ∀ e ∈ es, e.onOriginal W r) :
+    copyTree m W r ∈ (run (copy m W r) es).trees ∧
+    view (run (copy m W r) es) (copyTree m W r) = view W (sub W r) := by
+  have hint := C15_copy_refs_internal wf r hs
+  have hnew := (C15_copy_disjoint m wf r).2.1
+  have hlt : ∀ s ∈ reads (copy m W r) (copyTree m W r), s < (copy m W r).nsym := by
+    intro s hsr
+    show s < W.nsym + W.nsym
+    rcases hint s hsr with h' | h'
+    · rw [copyTree_owned] at h'
+      obtain ⟨o, ho, rfl⟩ := List.mem_map.mp h'
+      have := sub_syms_lt wf r o (List.mem_append_right _ ho)
+      omega
+    · omega
+  have hf : ∀ e ∈ es, e.foreign (footN (copy m W r) (copyTree m W r))
+      (reads (copy m W r) (copyTree m W r)) ((copyTree m W r).owned.map (copy m W r).iface)
+      (copyTree m W r).attrs := by
+    intro e he
+    obtain ⟨h1, h2, h3⟩ := h e he
+    refine ⟨fun p hp hmem => ?_, fun s hsy hmem => ?_, fun i hi hmem => ?_,
+      fun a ha hmem => hna e he a ha (copyTree_attrs m W r ▸ hmem)⟩
+    · have := h1 _ hp
+      rcases List.mem_append.mp hmem with hmem | hmem
+      · rw [copyTree_ids] at hmem
+        obtain ⟨j, _, rfl⟩ := List.mem_map.mp hmem
+        omega
+      · have := declIds_copy_ge r hs p hmem
+        omega
+    · rcases h2 s hsy with hown | hbig
+      · exact C15_copy_reads_no_original wf r hs s hmem hown
+      · have := hlt s hmem
+        have : s < W.nsym + W.nsym := this
+        omega
+    · rcases C15_copy_ifaces m wf r i hmem with hr | hsh
+      · rcases h3 i hi with h' | h' <;> omega
+      · exact hno e he i hi hsh
+  have := frame (copyTree_mem m W r) hlt (C15_copy_wf_iface m wf r) es hf
+  exact ⟨this.1, this.2.trans (C15_copy_equal m wf r)⟩
+
+/-- edits of the copy leave every original tree's written code unchanged (all modes) -/
+theorem C15_edit_copy_keeps_original (m : Mode) {W : World} (wf : WF W) (r : Nat)
+    (es : List Edit) (hna : ∀ e ∈ es, e.noSharedAttr W r)
+    (hno : ∀ e ∈ es, e.noSharedIface m W r) (h : ∀ e ∈ es, e.onCopy m W r)
+    {t : Forest} (ht : t ∈ W.trees) :
+    t ∈ (run (copy m W r) es).trees ∧ view (run (copy m W r) es) t = view W t := by
+  obtain ⟨hmem, hview⟩ := C15_copy_keeps_original m wf r ht
+  have hown : ∀ s ∈ t.owned, s < W.nsym := fun s hs => wf.syms_lt t ht s (List.mem_append_right _ hs)
+  have hlt0 : ∀ s ∈ reads (copy m W r) t, s < W.nsym := by
+    intro s hs
+    unfold reads at hs
+    rcases List.mem_append.mp hs with hs | hs
+    · exact wf.syms_lt t ht s hs
+    · obtain ⟨q, hq, hd⟩ := List.mem_flatMap.mp hs
+      rw [deps_copy_old m W r (hown q hq)] at hd
+      exact wf.deps_lt q s hd
+  have hlt : ∀ s ∈ reads (copy m W r) t, s < (copy m W r).nsym := by
+    intro s hs
+    have := hlt0 s hs
+    show s < W.nsym + W.nsym
+    omega
+  have hf : ∀ e ∈ es, e.foreign (footN (copy m W r) t) (reads (copy m W r) t)
+      (t.owned.map (copy m W r).iface) t.attrs := by
+    intro e he
+    obtain ⟨h1, h2, h3, h4⟩ := h e he
+    refine ⟨fun p hp hmem' => ?_, fun s hsy hmem' => ?_, fun i hi hmem' => ?_,
+      fun a ha _ => hna e he a ha (copyTree_attrs m W r ▸ h4 a ha)⟩
+    · have := h1 p hp
+      rcases List.mem_append.mp hmem' with hmem' | hmem'
+      · have := wf.ids_lt t ht p hmem'
+        omega
+      · obtain ⟨s, hs, hp'⟩ := List.mem_flatMap.mp hmem'
+        rw [bounds_copy_old m W r (hown s hs), init_copy_old m W r (hown s hs)] at hp'
+        have := wf.decl_lt s p hp'
+        omega
+    · have := hlt0 s hmem'
+      have := h2 s hsy
+      omega
+    · obtain ⟨s, hs, rfl⟩ := List.mem_map.mp hmem'
+      rw [iface_copy_old m W r (hown s hs)] at hi
+      rcases h3 _ hi with h' | h'
+      · have := wf.iface_lt s; omega
+      · exact hno e he _ hi h'
+  have := frame hmem hlt (C15_copy_wf_iface m wf r) es hf
+  exact ⟨this.1, this.2.trans hview⟩
+
+/-- the code with the datatype repair satisfies the statement for all edit lists that change no
+attribute of a shared interface object (and no shared helper object) -/
+theorem C15_edit_independent_partial (ifc : Bool) : C15_statement_partial ⟨true, ifc⟩ := by
+  intro W wf r es hok
+  exact ⟨C15_edit_original_keeps_copy wf r (Or.inl rfl) es (fun e he => (hok e he).1) (fun e he => (hok e he).2),
+         fun h t ht => C15_edit_copy_keeps_original _ wf r es (fun e he => (hok e he).1)
+           (fun e he => (hok e he).2) h ht⟩
+
+/-- **Independent.**  The deployed code (both repairs) satisfies the statement: after
+`c = node.copy()`, any edits addressing one side — that do not change a helper object shared by a
+node and its copy — leave the written code of the other unchanged. -/
+theorem C15_edit_independent : C15_statement deployed := by
+  intro W wf r es hna
+  have hno : ∀ e ∈ es, e.noSharedIface deployed W r := by
+    intro e _ i _ hmem
+    simp [deployed, sharedIfaces_fixed] at hmem
+  exact C15_edit_independent_partial true W wf r es (fun e he => ⟨hna e he, hno e he⟩)
+
+/-- **Independent, generic PSyIR.**  When no node of the copied subtree holds a helper object (all
+trees of the generic PSyIR: checked on the real objects by the attribute walk of the harness),
+the deployed code satisfies the statement for ALL edit lists. -/
+theorem C15_edit_independent_generic {W : World} (wf : WF W) (r : Nat) (hg : (sub W r).attrs = [])
+    (es : List Edit) :
+    ((∀ e ∈ es, e.onOriginal W r) →
+      copyTree deployed W r ∈ (run (copy deployed W r) es).trees ∧
+      view (run (copy deployed W r) es) (copyTree deployed W r) = view W (sub W r)) ∧
+    ((∀ e ∈ es, e.onCopy deployed W r) →
+      ∀ t ∈ W.trees, t ∈ (run (copy deployed W r) es).trees ∧
+        view (run (copy deployed W r) es) t = view W t) :=
+  C15_edit_independent W wf r es (fun e _ a _ hmem => by rw [hg] at hmem; simp at hmem)
+
+/-- **Independent, closed subtree** (e.g. the copy of a whole program): the edits of the original
+may rename or retype *any* symbol that existed before the copy. -/
+theorem C15_edit_independent_closed {m : Mode} {W : World} (wf : WF W) (r : Nat)
+    (hs : Sound m W r) (hc : Closed W (sub W r)) (es : List Edit)
+    (hna : ∀ e ∈ es, e.noSharedAttr W r)
+    (hno : ∀ e ∈ es, e.noSharedIface m W r) (h : ∀ e ∈ es, e.onOriginalAny W) :
+    copyTree m W r ∈ (run (copy m W r) es).trees ∧
+    view (run (copy m W r) es) (copyTree m W r) = view W (sub W r) := by
+  have hown := C15_copy_closed wf r hs hc
+  have hnew := (C15_copy_disjoint m wf r).2.1
+  have hrange : ∀ s ∈ reads (copy m W r) (copyTree m W r), W.nsym ≤ s ∧ s < W.nsym + W.nsym := by
+    intro s hsr
+    have h' := hown s hsr
+    refine ⟨(hnew s h').1, ?_⟩
+    rw [copyTree_owned] at h'
+    obtain ⟨o, ho, rfl⟩ := List.mem_map.mp h'
+    have := sub_syms_lt wf r o (List.mem_append_right _ ho)
+    omega
+  have hf : ∀ e ∈ es, e.foreign (footN (copy m W r) (copyTree m W r))
+      (reads (copy m W r) (copyTree m W r)) ((copyTree m W r).owned.map (copy m W r).iface)
+      (copyTree m W r).attrs := by
+    intro e he
+    obtain ⟨h1, h2, h3⟩ := h e he
+    refine ⟨fun p hp hmem => ?_, fun s hsy hmem => ?_, fun i hi hmem => ?_,
+      fun a ha hmem => hna e he a ha (copyTree_attrs m W r ▸ hmem)⟩
+    · have := h1 _ hp
+      rcases List.mem_append.mp hmem with hmem | hmem
+      · rw [copyTree_ids] at hmem
+        obtain ⟨j, _, rfl⟩ := List.mem_map.mp hmem
+        omega
+      · have := declIds_copy_ge r hs p hmem
+        omega
+    · have := hrange s hmem
+      rcases h2 s hsy with h' | h' <;> omega
+    · rcases C15_copy_ifaces m wf r i hmem with hr | hsh
+      · rcases h3 i hi with h' | h' <;> omega
+      · exact hno e he i hi hsh
+  have := frame (copyTree_mem m W r) (fun s hsr => (hrange s hsr).2) (C15_copy_wf_iface m wf r) es hf
+  exact ⟨this.1, this.2.trans (C15_copy_equal m wf r)⟩
+
+/-- **Partial (pinned code).**  Without the repairs the statement holds for every subtree in which
+no datatype uses a symbol declared inside the subtree (kind parameter, array bound, initial value,
+kind of a literal) or holds expression nodes, and for edits that change no shared interface. -/
+theorem C15_pinned_partial {W : World} (wf : WF W) (r : Nat) (ifc : Bool)
+    (hn : NoSymbolInDatatype W (sub W r)) (es : List Edit) (hna : ∀ e ∈ es, e.noSharedAttr W r)
+    (hno : ∀ e ∈ es, e.noSharedIface ⟨false, ifc⟩ W r) :
+    ((∀ e ∈ es, e.onOriginal W r) →
+      copyTree ⟨false, ifc⟩ W r ∈ (run (copy ⟨false, ifc⟩ W r) es).trees ∧
+      view (run (copy ⟨false, ifc⟩ W r) es) (copyTree ⟨false, ifc⟩ W r) = view W (sub W r)) ∧
+    ((∀ e ∈ es, e.onCopy ⟨false, ifc⟩ W r) →
+      ∀ t ∈ W.trees, t ∈ (run (copy ⟨false, ifc⟩ W r) es).trees ∧
+        view (run (copy ⟨false, ifc⟩ W r) es) t = view W t) :=
+  ⟨C15_edit_original_keeps_copy wf r (Or.inr hn) es hna hno,
+   fun h _ ht => C15_edit_copy_keeps_original _ wf r es hna hno h ht⟩
+
+/-! ## The pinned code violates the property: kernel-checked witnesses
 
 `subroutine s(n); integer, intent(in) :: n; integer, parameter :: m = 10; real, dimension(m) :: t;
-t(1) = 0; end`: symbols `0 = m` (name 10), `1 = t` (name 11, its array bound refers to `m`),
-`2 = n` (name 12, an argument: interface object 2 with access 1 = READ); node 0 is the Routine
-with table `[m, t, n]`, node 1 a Reference to `t`.  After `c = s.copy()` on the pinned code the
-bound of the copy's `t` still refers to the original's `m`; `rename_symbol(m, "mm")` in the
-original changes the declaration of `t` written for the copy. -/
+t(1) = 0; end`: symbols `0 = m` (name 10), `1 = t` (name 11; the bound of its array type is the
+expression node 2, a Reference to `m`), `2 = n` (name 12, an argument: interface object 2 with
+access 1 = READ); node 0 is the Routine with table `[m, t, n]`, node 1 a Reference to `t`.  After
+`c = s.copy()` on the pinned code the copy's `t` has the very datatype object of the original's
+`t`: its bound is the same node and still refers to the original's `m`;
+`rename_symbol(m, "mm")` in the original changes the declaration of `t` written for the copy. -/
 
 def witnessWorld : World :=
   { name := fun s => if s = 0 then 10 else if s = 1 then 11 else if s = 2 then 12 else 0
-    deps := fun s => if s = 1 then [0] else []
+    links := fun _ => []
+    bounds := fun s => if s = 1 then .cons ⟨2, 2, some 0, none, none, none⟩ .nil .nil else .nil
+    init := fun _ => .nil
     iface := fun s => if s < 3 then s else 0
     freshIface := fun _ => false
     access := fun i => if i = 2 then 1 else 0
+    attrVal := fun _ => 0
     nsym := 3
     nif := 3
-    nnode := 2
-    trees := [.cons ⟨0, 0, none, none, some [0, 1, 2]⟩ (.cons ⟨1, 1, some 1, none, none⟩ .nil .nil) .nil] }
+    nnode := 3
+    trees := [.cons ⟨0, 0, none, none, some [0, 1, 2], none⟩ (.cons ⟨1, 1, some 1, none, none, none⟩ .nil .nil) .nil] }
 
 def witnessEdits : List Edit := [.rename 0 0 99]
 
 theorem witness_wf : WF witnessWorld := by
-  refine ⟨?_, ?_, ?_, ?_⟩
+  refine ⟨?_, ?_, ?_, ?_, ?_⟩
   · intro t ht i hi
     simp only [witnessWorld, List.mem_singleton] at ht
     subst ht
@@ -674,13 +911,18 @@ theorem witness_wf : WF witnessWorld := by
     simp [Forest.syms, Forest.tsyms, Forest.owned, NodeRec.tab] at hs
     rcases hs with rfl | rfl | rfl | rfl <;> simp [witnessWorld]
   · intro s d hd
-    simp only [witnessWorld] at hd
+    simp only [witnessWorld, World.deps] at hd
     split at hd
-    · simp at hd; subst hd; simp [witnessWorld]
-    · simp at hd
+    · simp [Forest.uses, Forest.syms, Forest.tsyms] at hd; subst hd; simp [witnessWorld]
+    · simp [Forest.uses, Forest.syms, Forest.tsyms] at hd
   · intro s
     simp only [witnessWorld]
     split <;> omega
+  · intro s i hi
+    simp only [witnessWorld] at hi
+    split at hi
+    · simp [Forest.ids] at hi; subst hi; simp [witnessWorld]
+    · simp [Forest.ids] at hi
 
 theorem witness_onOriginal : ∀ e ∈ witnessEdits, e.onOriginal witnessWorld 0 := by
   intro e he
@@ -693,41 +935,57 @@ theorem witness_onOriginal : ∀ e ∈ witnessEdits, e.onOriginal witnessWorld 0
   left
   decide
 
-theorem witness_noSharedIface : ∀ e ∈ witnessEdits, e.noSharedIface witnessWorld 0 := by
+theorem witness_noSharedIface (m : Mode) :
+    ∀ e ∈ witnessEdits, e.noSharedAttr witnessWorld 0 ∧ e.noSharedIface m witnessWorld 0 := by
   intro e he
   simp only [witnessEdits, List.mem_singleton] at he
   subst he
-  intro i hi
-  simp [Edit.ifaces] at hi
+  refine ⟨fun a ha => ?_, fun i hi => ?_⟩
+  · simp [Edit.attrs] at ha
+  · simp [Edit.ifaces] at hi
 
 /-- on the pinned code the copy's written code changes when the original's `m` is renamed -/
-theorem C15_datatype_ref_witness :
-    view (run (copy false witnessWorld 0) witnessEdits) (copyTree false witnessWorld 0)
+theorem C15_datatype_ref_witness (ifc : Bool) :
+    view (run (copy ⟨false, ifc⟩ witnessWorld 0) witnessEdits) (copyTree ⟨false, ifc⟩ witnessWorld 0)
       ≠ view witnessWorld (sub witnessWorld 0) := by
-  decide
+  cases ifc <;> decide
 
-/-- and the fixed code does not have the problem on the same input -/
+/-- and the repaired code does not have the problem on the same input -/
 theorem C15_datatype_ref_witness_fixed :
-    view (run (copy true witnessWorld 0) witnessEdits) (copyTree true witnessWorld 0)
+    view (run (copy deployed witnessWorld 0) witnessEdits) (copyTree deployed witnessWorld 0)
       = view witnessWorld (sub witnessWorld 0) := by
   decide
 
 /-- the pinned code violates even the partial statement -/
-theorem C15_datatype_ref_counterexample : ¬ C15_statement_partial false := by
+theorem C15_datatype_ref_counterexample (ifc : Bool) : ¬ C15_statement_partial ⟨false, ifc⟩ := by
   intro h
-  exact C15_datatype_ref_witness
-    ((h witnessWorld witness_wf 0 witnessEdits witness_noSharedIface).1 witness_onOriginal).2
+  exact C15_datatype_ref_witness ifc
+    ((h witnessWorld witness_wf 0 witnessEdits (witness_noSharedIface _)).1 witness_onOriginal).2
 
-/-- the defect is exactly a broken `copy_refs_internal`: the pinned copy reads the original's `m` -/
+/-- the defect is a broken `copy_refs_internal`: the pinned copy reads the original's `m` … -/
 theorem C15_pinned_reads_original :
-    0 ∈ reads (copy false witnessWorld 0) (copyTree false witnessWorld 0) ∧
+    0 ∈ reads (copy ⟨false, true⟩ witnessWorld 0) (copyTree ⟨false, true⟩ witnessWorld 0) ∧
     0 ∈ (sub witnessWorld 0).owned := by
   decide
 
-/-! ## Known finding: interface objects are shared (both pinned and fixed code)
+/-- … and a broken disjointness inside declarations: the bound expression (node 2) of the copy's
+`t` IS the node of the original's `t`, so re-pointing that Reference in the original (an edit of
+an original node) changes the copy's declaration; the repaired code gives the copy its own node -/
+theorem C15_pinned_shares_datatype_nodes :
+    2 ∈ (copy ⟨false, true⟩ witnessWorld 0).declIds (copyTree ⟨false, true⟩ witnessWorld 0).owned ∧
+    2 ∈ ((witnessWorld.bounds 1).ids) ∧
+    view (run (copy ⟨false, true⟩ witnessWorld 0) [.setSym 2 (some 2)]) (copyTree ⟨false, true⟩ witnessWorld 0)
+      ≠ view witnessWorld (sub witnessWorld 0) ∧
+    (copy deployed witnessWorld 0).declIds (copyTree deployed witnessWorld 0).owned = [5] ∧
+    view (run (copy deployed witnessWorld 0) [.setSym 2 (some 2)]) (copyTree deployed witnessWorld 0)
+      = view witnessWorld (sub witnessWorld 0) := by
+  decide
+
+/-! ## With the datatype repair only: interface objects are shared
 
 `n.interface.access = READWRITE` on the original's argument `n` changes the `intent` written for
-the copy, because `DataSymbol.copy` passed the same `ArgumentInterface` object on. -/
+the copy, because `DataSymbol.copy` passed the same `ArgumentInterface` object on.  Repaired by
+fixes/C15-deepcopy-interfaces.patch (`deep_copy` copies the interface of every copied symbol). -/
 
 def ifaceEdits : List Edit := [.setAccess 2 3]
 
@@ -743,95 +1001,171 @@ theorem ifaceEdits_onOriginal : ∀ e ∈ ifaceEdits, e.onOriginal witnessWorld 
   decide
 
 theorem C15_shared_interface_witness :
-    view (run (copy true witnessWorld 0) ifaceEdits) (copyTree true witnessWorld 0)
+    view (run (copy ⟨true, false⟩ witnessWorld 0) ifaceEdits) (copyTree ⟨true, false⟩ witnessWorld 0)
       ≠ view witnessWorld (sub witnessWorld 0) := by
   decide
 
-/-- the deployed (fixed) code violates the FULL statement -/
-theorem C15_shared_interface_counterexample : ¬ C15_statement true := by
+/-- the code without the interface repair violates the FULL statement -/
+theorem C15_shared_interface_counterexample : ¬ C15_statement ⟨true, false⟩ := by
   intro h
   exact C15_shared_interface_witness
-    ((h witnessWorld witness_wf 0 ifaceEdits (fun _ _ => trivial)).1 ifaceEdits_onOriginal).2
+    ((h witnessWorld witness_wf 0 ifaceEdits (fun e he a ha => by
+        simp only [ifaceEdits, List.mem_singleton] at he
+        subst he
+        simp [Edit.attrs] at ha)).1 ifaceEdits_onOriginal).2
 
-/-- the interface object of `n` is indeed one of the shared ones, so `ifaceEdits` is excluded by
-`noSharedIface` — and only such edits are -/
-example : sharedIfaces witnessWorld (sub witnessWorld 0) = [0, 1, 2] := by decide
-example : ¬ (∀ e ∈ ifaceEdits, e.noSharedIface witnessWorld 0) := by
-  unfold ifaceEdits Edit.noSharedIface; decide
+/-- …and the deployed code does not have the problem on the same input -/
+theorem C15_shared_interface_witness_fixed :
+    view (run (copy deployed witnessWorld 0) ifaceEdits) (copyTree deployed witnessWorld 0)
+      = view witnessWorld (sub witnessWorld 0) := by
+  decide
+
+example : sharedIfaces ⟨true, false⟩ witnessWorld (sub witnessWorld 0) = [0, 1, 2] := by decide
+example : sharedIfaces deployed witnessWorld (sub witnessWorld 0) = [] := by decide
+
+/-! ## Helper objects held by nodes are shared (PSyKAl kernels; known findings)
+
+A schedule (node 0) with one kernel call (node 1) that holds its `KernelArguments` object
+(helper object 0, state 7).  `copy.copy` hands the same object to the copy of the kernel, so
+`kern.arguments.args[i].access = …` (or `kern.set_opencl_options(…)`) on the original changes
+what is written for the copy. -/
+
+def kernWorld : World :=
+  { name := fun _ => 0
+    links := fun _ => []
+    bounds := fun _ => .nil
+    init := fun _ => .nil
+    iface := fun _ => 0
+    freshIface := fun _ => false
+    access := fun _ => 0
+    attrVal := fun a => if a = 0 then 7 else 0
+    nsym := 0
+    nif := 1
+    nnode := 2
+    trees := [.cons ⟨0, 0, none, none, some [], none⟩ (.cons ⟨1, 1, none, none, none, some 0⟩ .nil .nil) .nil] }
+
+theorem kernWorld_wf : WF kernWorld := by
+  refine ⟨?_, ?_, ?_, ?_, ?_⟩
+  · intro t ht i hi
+    simp only [kernWorld, List.mem_singleton] at ht
+    subst ht
+    simp [Forest.ids] at hi
+    rcases hi with rfl | rfl <;> simp [kernWorld]
+  · intro t ht s hs
+    simp only [kernWorld, List.mem_singleton] at ht
+    subst ht
+    simp [Forest.syms, Forest.tsyms, Forest.owned, NodeRec.tab] at hs
+  · intro s d hd
+    simp [kernWorld, World.deps, Forest.uses, Forest.syms, Forest.tsyms] at hd
+  · intro s; simp [kernWorld]
+  · intro s i hi
+    simp [kernWorld, Forest.ids] at hi
+
+def attrEdits : List Edit := [.setAttr 0 9]
+
+theorem C15_shared_attr_witness :
+    view (run (copy deployed kernWorld 0) attrEdits) (copyTree deployed kernWorld 0)
+      ≠ view kernWorld (sub kernWorld 0) := by
+  decide
+
+/-- the deployed code violates the FULL statement on trees whose nodes hold helper objects -/
+theorem C15_shared_attr_counterexample : ¬ C15_statement_full deployed := by
+  intro h
+  refine C15_shared_attr_witness
+    ((h kernWorld kernWorld_wf 0 attrEdits (fun _ _ => trivial)).1 ?_).2
+  intro e he
+  simp only [attrEdits, List.mem_singleton] at he
+  subst he
+  exact ⟨by simp [Edit.nodes], by simp [Edit.symbols], by simp [Edit.ifaces]⟩
+
+/-- `attrEdits` is exactly what `noSharedAttr` excludes -/
+example : (sub kernWorld 0).attrs = [0] ∧ (copyTree deployed kernWorld 0).attrs = [0] := by decide
 
 /-! ## Non-vacuity and sanity evaluations
 
-`module; contains; subroutine s(a); integer, parameter :: m, k; real(kind=k), dimension(m) :: t;
+`module; contains; subroutine s(a); integer, parameter :: m, k = 8; real(kind=k), dimension(m) :: t;
 real(kind=wp) :: a … 1.0_k … do i … (inner scope with a symbol whose bound uses m)`:
-symbols 0 = `wp` (module level, imported: its copy gets a new interface), 1 = `m`, 2 = `k`,
-3 = `t` (deps m, k), 4 = `a` (deps wp), 5 = `i`, 6 = `tmp` (declared in the loop body's table,
-bound uses `m`).
+symbols 0 = `wp` (module level, imported: its copy gets a new interface in every mode), 1 = `m`,
+2 = `k` (initial value: Literal node 10), 3 = `t` (link to its kind `k`, bound = Reference node 8
+to `m`), 4 = `a` (link to `wp`), 5 = `i`, 6 = `tmp` (declared in the loop body's table, bound =
+Reference node 9 to `m`).
 Nodes: 0 Container (table [wp]) > 1 Routine (table [m,k,t,a,i]) > 2 Loop (variable i) >
 3 Schedule (table [tmp]) > 4 Reference t, 5 Literal of kind k, 6 Reference a, 7 Reference tmp. -/
 
 def demoWorld : World :=
   { name := fun s => 100 + s
-    deps := fun s => if s = 3 then [1, 2] else if s = 4 then [0] else if s = 6 then [1] else []
+    links := fun s => if s = 3 then [2] else if s = 4 then [0] else []
+    bounds := fun s => if s = 3 then .cons ⟨8, 4, some 1, none, none, none⟩ .nil .nil
+                       else if s = 6 then .cons ⟨9, 4, some 1, none, none, none⟩ .nil .nil else .nil
+    init := fun s => if s = 2 then .cons ⟨10, 5, none, none, none, none⟩ .nil .nil else .nil
     iface := fun s => if s < 7 then s else 0
     freshIface := fun s => s = 0
     access := fun i => if i = 4 then 2 else 0
+    attrVal := fun _ => 0
     nsym := 7
     nif := 7
-    nnode := 8
-    trees := [.cons ⟨0, 0, none, none, some [0]⟩
-      (.cons ⟨1, 1, none, none, some [1, 2, 3, 4, 5]⟩
-        (.cons ⟨2, 2, some 5, none, none⟩
-          (.cons ⟨3, 3, none, none, some [6]⟩
-            (.cons ⟨4, 4, some 3, none, none⟩ .nil
-              (.cons ⟨5, 5, none, some 2, none⟩ .nil
-                (.cons ⟨6, 4, some 4, none, none⟩ .nil
-                  (.cons ⟨7, 4, some 6, none, none⟩ .nil .nil)))) .nil) .nil) .nil) .nil] }
+    nnode := 11
+    trees := [.cons ⟨0, 0, none, none, some [0], none⟩
+      (.cons ⟨1, 1, none, none, some [1, 2, 3, 4, 5], none⟩
+        (.cons ⟨2, 2, some 5, none, none, none⟩
+          (.cons ⟨3, 3, none, none, some [6], none⟩
+            (.cons ⟨4, 4, some 3, none, none, none⟩ .nil
+              (.cons ⟨5, 5, none, some 2, none, none⟩ .nil
+                (.cons ⟨6, 4, some 4, none, none, none⟩ .nil
+                  (.cons ⟨7, 4, some 6, none, none, none⟩ .nil .nil)))) .nil) .nil) .nil) .nil] }
 
 example : wfCheck demoWorld = true := by decide
-example : wfCheck (copy true demoWorld 1) = true := by decide
+example : wfCheck (copy deployed demoWorld 1) = true := by decide
 
 /-- the routine (node 1) is found, has 7 nodes and declares 6 symbols (its own and the inner scope's) -/
 example : (sub demoWorld 1).ids = [1, 2, 3, 4, 5, 6, 7] ∧ (sub demoWorld 1).owned = [1, 2, 3, 4, 5, 6] := by
   decide
 
-/-- fixed copy of the routine: new nodes 9..15, new symbols 8..13, the reference to `a`'s kind `wp`
-(outer scope) still points outward, everything else at the copy's own symbols -/
-example : (copyTree true demoWorld 1).ids = [9, 10, 11, 12, 13, 14, 15] ∧
-    (copyTree true demoWorld 1).owned = [8, 9, 10, 11, 12, 13] ∧
-    (copyTree true demoWorld 1).syms = [12, 10, 11, 13] ∧
-    (copyTree true demoWorld 1).tsyms = [9] ∧
-    (copy true demoWorld 1).deps 10 = [8, 9] ∧ (copy true demoWorld 1).deps 11 = [0] ∧
-    (copy true demoWorld 1).deps 13 = [8] := by decide
+/-- deployed copy of the routine: new nodes 12..18, new symbols 8..13, the link of `a` to its kind
+`wp` (outer scope) still points outward, everything else at the copy's own symbols; the expression
+nodes of the copied declarations are new (21 = initial value of `k`, 19 = bound of `t`, 20 = bound
+of `tmp`) -/
+example : (copyTree deployed demoWorld 1).ids = [12, 13, 14, 15, 16, 17, 18] ∧
+    (copyTree deployed demoWorld 1).owned = [8, 9, 10, 11, 12, 13] ∧
+    (copyTree deployed demoWorld 1).syms = [12, 10, 11, 13] ∧
+    (copyTree deployed demoWorld 1).tsyms = [9] ∧
+    (copy deployed demoWorld 1).deps 10 = [9, 8] ∧ (copy deployed demoWorld 1).deps 11 = [0] ∧
+    (copy deployed demoWorld 1).deps 13 = [8] ∧
+    (copy deployed demoWorld 1).declIds (copyTree deployed demoWorld 1).owned = [21, 19, 20] := by decide
 
-/-- copying the whole program (node 0): the imported `wp` gets a new interface object (7 + 0),
-the other symbols share theirs -/
-example : (copy true demoWorld 0).iface 7 = 7 ∧ (copy true demoWorld 0).iface 11 = 4 ∧
-    sharedIfaces demoWorld (sub demoWorld 0) = [1, 2, 3, 4, 5, 6] := by decide
+/-- copying the whole program (node 0): every copied symbol gets its own interface object in the
+deployed code; with the datatype repair only, just the imported `wp` does -/
+example : (copy deployed demoWorld 0).iface 7 = 7 ∧ (copy deployed demoWorld 0).iface 11 = 11 ∧
+    (copy ⟨true, false⟩ demoWorld 0).iface 11 = 4 ∧
+    sharedIfaces ⟨true, false⟩ demoWorld (sub demoWorld 0) = [1, 2, 3, 4, 5, 6] := by decide
 
-/-- pinned copy: the kind of the literal and the bounds/kinds in the tables still point at the
-original's `m` (1) and `k` (2) -/
-example : (copyTree false demoWorld 1).tsyms = [2] ∧
-    (copy false demoWorld 1).deps 10 = [1, 2] ∧ (copy false demoWorld 1).deps 13 = [1] := by decide
+/-- pinned copy: the kind of the literal, the kind link and the bounds in the tables still point at
+the original's `m` (1) and `k` (2); the bound nodes 8 and 9 are shared -/
+example : (copyTree ⟨false, false⟩ demoWorld 1).tsyms = [2] ∧
+    (copy ⟨false, false⟩ demoWorld 1).deps 10 = [2, 1] ∧ (copy ⟨false, false⟩ demoWorld 1).deps 13 = [1] ∧
+    (copy ⟨false, false⟩ demoWorld 1).declIds (copyTree ⟨false, false⟩ demoWorld 1).owned = [21, 8, 9] := by
+  decide
 
-/-- `Sound`'s second alternative is satisfiable by a non-trivial subtree: the loop body (node 3)
-declares `tmp` whose bound uses the *outer* `m` -/
-example : noSymbolInDatatypeB demoWorld (sub demoWorld 3) = true ∧ (sub demoWorld 3).owned = [6] := by decide
+/-- `Sound`'s second alternative is satisfiable by a non-trivial subtree: the Loop (node 2) below
+a routine whose symbols it uses; and it fails for the routine -/
+example : noSymbolInDatatypeB demoWorld (sub demoWorld 4) = true := by decide
 example : noSymbolInDatatypeB demoWorld (sub demoWorld 1) = false := by decide
 
-/-- edit hypotheses are satisfiable: renaming `m` and `k`, adding a symbol to the routine,
-detaching the loop, re-pointing a reference, changing the access of a symbol created after the copy
-are edits of the original side that touch no shared interface; they leave the view of the fixed
-copy unchanged, and change that of the pinned copy -/
+/-- edit hypotheses are satisfiable: renaming `m` and `k`, adding a symbol to the routine, changing
+the access of the argument's interface, giving `t` a new interface, re-declaring `t`, re-pointing
+the bound expression of the original's `t` (node 8), detaching the loop, re-pointing a reference
+are edits of the original side; they leave the view of the deployed copy unchanged, and change
+that of the pinned copy -/
 def demoEdits : List Edit :=
-  [.rename 1 1 901, .rename 1 2 902, .addSym 1 77 [1] false, .setAccess 14 5, .detach 2,
-   .setSym 4 (some 5), .setDeps 3 [1]]
+  [.rename 1 1 901, .rename 1 2 902, .addSym 1 77 [1] .nil .nil false, .setAccess 4 5, .setIface 3 9,
+   .setSym 8 (some 5), .detach 2, .setSym 4 (some 5), .setDecl 3 [1] .nil .nil, .setFresh 3 true]
 
-example : view (run (copy true demoWorld 1) demoEdits) (copyTree true demoWorld 1)
+example : view (run (copy deployed demoWorld 1) demoEdits) (copyTree deployed demoWorld 1)
     = view demoWorld (sub demoWorld 1) := by decide
-example : view (run (copy false demoWorld 1) demoEdits) (copyTree false demoWorld 1)
+example : view (run (copy ⟨false, false⟩ demoWorld 1) demoEdits) (copyTree ⟨false, false⟩ demoWorld 1)
     ≠ view demoWorld (sub demoWorld 1) := by decide
 /-- …and they do change the original -/
-example : view (run (copy true demoWorld 1) demoEdits) (sub demoWorld 0) ≠ view demoWorld (sub demoWorld 0) := by
+example : view (run (copy deployed demoWorld 1) demoEdits) (sub demoWorld 0) ≠ view demoWorld (sub demoWorld 0) := by
   decide
 
 /-- the closed case is satisfiable: the whole program (node 0) uses no outer symbol -/
@@ -840,10 +1174,10 @@ example : (sub demoWorld 0).syms ++ (sub demoWorld 0).tsyms = [5, 3, 4, 6, 2] 
 example : Closed demoWorld (sub demoWorld 0) := by unfold Closed; decide
 /-- …while the routine alone is not closed (it uses the module's `wp`) -/
 example : ¬ Closed demoWorld (sub demoWorld 1) := by unfold Closed; decide
-example : ∀ e ∈ demoEdits, e.onOriginal demoWorld 1 ∧ e.noSharedIface demoWorld 1 := by
-  unfold demoEdits Edit.onOriginal Edit.noSharedIface; decide
-example : ∀ e ∈ [Edit.rename 9 8 5, .detach 10, .addSym 9 3 [8] false, .attach 9 0 10, .setAccess 7 1],
-    e.onCopy demoWorld 0 ∧ e.noSharedIface demoWorld 0 := by
-  unfold Edit.onCopy Edit.noSharedIface; decide
+example : ∀ e ∈ demoEdits, e.onOriginal demoWorld 1 := by
+  unfold demoEdits Edit.onOriginal; decide
+example : ∀ e ∈ [Edit.rename 13 8 5, .detach 14, .addSym 13 3 [8] .nil .nil false, .attach 13 0 14,
+    .setAccess 11 1, .setSym 19 none], e.onCopy deployed demoWorld 0 := by
+  unfold Edit.onCopy; decide
 
 end C15
